@@ -1,3 +1,15 @@
+/-
+  C16 — steps 2 + 3 (`intersection_darts`: group, number, `insert_intersections`) SUCCEED: forward totality of the loop over all edges.
+
+  * `insertIntersections_total`    every call of `insert_vertices_on_edge` answers `Ok` (`C16_insertVertices_total_partial`); its
+                                   hypotheses — edge dart in use below the fresh block, 2-linked, successors on both sides, positions in
+                                   ]0,1[, both end points valued — are transported along the loop with C14's frame (same transport as
+                                   `insertIntersections_carries`)
+  * `C16_steps23_total_partial`    for every iteration order of the `HashMap` (`KeysAreHitEdges`): `HitDartsOK`, positions in ]0,1[ and
+                                   valued end points of every written slot ⇒ `stepsTwoThree … = (res, Ok, m3)`.  PARTIAL: crossed edges
+                                   2-linked with successors on both sides (interior grid edges; a boundary edge is not covered)
+  On the grid of the builder all hypotheses are theorems: `C16_steps23_total_on_grid` (Props/C16Step5Pipe.lean).
+-/
 import Honeycomb.Props.C16InsertTotal
 
 set_option linter.unusedSimpArgs false
@@ -160,5 +172,101 @@ theorem insertIntersections_total : ∀ (gs : List (Nat × List Hit)) (m : Map V
       simp only [List.map_cons, slicesFrom, List.zip_cons_cons, insertIntersections, Prog.bind_eq]
       rw [run_bind_of_ok h1, ← inv.n_eq]
       exact r'
+
+/-- **C16, steps 2 + 3 are total** (partial: every crossed edge 2-linked with successors on both sides — interior grid
+    edges, `HitDartsOK`).  For every iteration order of the `HashMap` (`KeysAreHitEdges`), on a well-formed map with a vertex
+    storage, when every written slot has its position in `]0,1[` and the two end points of its dart carry a value,
+    `intersection_darts` succeeds: no call of `insert_vertices_on_edge` is refused. -/
+theorem C16_steps23_total_partial {m0 : Map Val} {slots : List Slot} {keys : List Nat} (hwf : WF 3 m0)
+    (h0 : 0 < m0.a.size) (hhit : HitDartsOK m0 slots) (hk : KeysAreHitEdges (m0.β 2) slots keys)
+    (ht : ∀ (K d : Nat) (t : Rat), slots[K]? = some (some (d, t)) → 0 < t ∧ t < 1)
+    (hv : ∀ (K d : Nat) (t : Rat), slots[K]? = some (some (d, t)) →
+      (∃ v, Carries m0 d v) ∧ ∃ v, Carries m0 (m0.β 1 d) v) :
+    ∃ res m3, stepsTwoThree m0 slots keys = (res, .ok (), m3) := by
+  obtain ⟨hnd, hkeys, hall⟩ := keysOK_of_hit_edges hwf hhit hk
+  unfold stepsTwoThree
+  simp only
+  set hs := hitsOf (m0.β 2) slots with hhs
+  set gs := groupsOf hs keys with hgs
+  set tot := 2 * (gs.map (·.2.length)).sum with htot
+  have hsz := hwf.toSized
+  have hfst : (m0.addFreeDarts tot).1 = m0.n := rfl
+  have hn1 : (m0.addFreeDarts tot).2.n = m0.n + tot := rfl
+  have w1 : WF 3 (m0.addFreeDarts tot).2 := hwf.addFreeDarts (by omega) tot
+  have eβ : ∀ i d, i < 3 → d < m0.n → (m0.addFreeDarts tot).2.β i d = m0.β i d := by
+    intro i d hi hd; rw [addFreeDarts_β hsz tot i d hi, if_pos hd]
+  have iu1 : ∀ {d}, C01.InUse m0 d → C01.InUse (m0.addFreeDarts tot).2 d := by
+    intro d h
+    exact ⟨h.1, by rw [hn1]; have := h.2.1; omega, by rw [addFreeDarts_unused hsz, if_pos h.2.1]; exact h.2.2⟩
+  have hmemg : ∀ g, g ∈ gs → g.1 ∈ keys ∧ g.2 = groupOf hs g.1 := by
+    intro g hg
+    rw [hgs] at hg; unfold groupsOf at hg
+    obtain ⟨e, he, rfl⟩ := List.mem_map.1 hg
+    exact ⟨he, rfl⟩
+  have hmap1 : gs.map (·.1) = keys := by
+    rw [hgs]; unfold groupsOf; rw [List.map_map]
+    exact List.map_id' _
+  -- what a key is: the edge of a written slot
+  have keyinfo : ∀ e, e ∈ keys → (m0.β 2 e ≠ 0 ∧ m0.β 1 (m0.β 2 e) ≠ 0) ∧
+      ((∃ v, Carries m0 e v) ∧ ∃ v, Carries m0 (m0.β 1 e) v) := by
+    intro e he
+    obtain ⟨ie, eb1, _⟩ := hkeys e he
+    obtain ⟨h, hh⟩ := (hk.2 e).1 he
+    obtain ⟨K, d, t, hK, hx⟩ := (C16_hits_slot_numbers (m0.β 2) slots _).1 hh
+    injection hx with hed _
+    obtain ⟨hd, hb1, hb2, hb12⟩ := hhit K d t hK
+    obtain ⟨⟨v1, c1⟩, ⟨v2, c2⟩⟩ := hv K d t hK
+    by_cases hdd : e = d
+    · subst hdd; exact ⟨⟨hb2, hb12⟩, ⟨v1, c1⟩, ⟨v2, c2⟩⟩
+    · have heb : e = m0.β 2 d := by
+        rw [hed]; unfold edgeOf
+        by_cases hc : m0.β 2 d ≠ 0 ∧ m0.β 2 d < d
+        · rw [if_pos hc]
+        · rw [if_neg hc] at *; exact absurd (by rw [hed]; unfold edgeOf; rw [if_neg hc]) hdd
+      have hi2 := hwf.invol 2 (by omega) (by omega) d hd.2.1 hb2
+      have hb2e : m0.β 2 e = d := by rw [heb]; exact hi2.1
+      refine ⟨⟨by rw [hb2e]; exact hd.1, by rw [hb2e]; exact hb1⟩, ⟨v2, ie, ?_⟩, ⟨v1, inUse_image hwf (by omega) ie.2.1 eb1, ?_⟩⟩
+      · have := cellId_b1b2 hwf ie.1 ie.2.1 (by rw [hb2e]; exact hb1)
+        rw [hb2e] at this
+        rw [← this]; exact c2.2
+      · have := cellId_b1b2 hwf hd.1 hd.2.1 (by rw [← heb]; exact eb1)
+        rw [← heb] at this
+        rw [this]; exact c1.2
+  obtain ⟨m3, r⟩ := insertIntersections_total gs (m0.addFreeDarts tot).2 m0.n w1
+    (by simp only [Map.addFreeDarts, Array.size_map]; exact h0)
+    (by intro d hd hdn
+        refine ⟨by rw [addFreeDarts_unused hsz, if_neg (by omega)], fun i hi => ?_⟩
+        rw [addFreeDarts_β hsz tot i d hi, if_neg (by omega)])
+    (by rw [hn1]) hsz.npos
+    (by intro g hg
+        obtain ⟨a, b, _⟩ := hkeys g.1 (hmemg g hg).1
+        exact ⟨iu1 a, a.2.1, by rw [eβ 1 _ (by omega) a.2.1]; exact b⟩)
+    (by rw [hmap1]; exact hnd)
+    (by intro g hg g' hg'
+        obtain ⟨a, _, c⟩ := hkeys g.1 (hmemg g hg).1
+        obtain ⟨a', _, c'⟩ := hkeys g'.1 (hmemg g' hg').1
+        rw [eβ 2 _ (by omega) a.2.1]
+        exact canonical_not_opposite hwf a a'.1 c c')
+    (by intro g hg
+        obtain ⟨a, _, _⟩ := hkeys g.1 (hmemg g hg).1
+        obtain ⟨⟨l2, l12⟩, _⟩ := keyinfo g.1 (hmemg g hg).1
+        rw [eβ 2 _ (by omega) a.2.1, eβ 1 _ (by omega) (hwf.range 2 (by omega) _ a.2.1)]
+        exact ⟨l2, l12⟩)
+    (by intro g hg h hh
+        rw [(hmemg g hg).2] at hh
+        obtain ⟨K, d, t, hK, hx⟩ := (C16_hits_slot_numbers (m0.β 2) slots _).1 (mem_groupOf.1 hh)
+        injection hx with _ hh'
+        have := ht K d t hK
+        rw [hh']; simp only
+        split
+        · constructor <;> linarith
+        · exact this)
+    (by intro g hg
+        obtain ⟨a, _, _⟩ := hkeys g.1 (hmemg g hg).1
+        obtain ⟨_, ⟨v1, c1⟩, ⟨v2, c2⟩⟩ := keyinfo g.1 (hmemg g hg).1
+        exact ⟨⟨v1, carries_addFreeDarts hwf tot c1⟩,
+          ⟨v2, by rw [eβ 1 _ (by omega) a.2.1]; exact carries_addFreeDarts hwf tot c2⟩⟩)
+  rw [hfst, r]
+  exact ⟨_, _, rfl⟩
 
 end HC.C16
